@@ -1,6 +1,6 @@
-use rusty_bit_vec::{MAX_INTEGER, MAX_LONG};
+use rusty_bit_vec::MAX_INTEGER;
 use rusty_parser::BuiltInFunction;
-use rusty_variant::{Variant, VariantError};
+use rusty_variant::VariantError;
 
 use crate::RuntimeError;
 use crate::interpreter::interpreter_trait::InterpreterTrait;
@@ -8,14 +8,15 @@ use crate::interpreter::variant_casts::VariantCasts;
 
 pub fn run<S: InterpreterTrait>(interpreter: &mut S) -> Result<(), RuntimeError> {
     let v: &str = interpreter.context()[0].to_str_unchecked();
-    let result: Variant = val(v)?;
+    // VAL returns a DOUBLE
+    let result: f64 = val(v)?;
     interpreter
         .context_mut()
         .set_built_in_function_result(BuiltInFunction::Val, result);
     Ok(())
 }
 
-fn val(s: &str) -> Result<Variant, VariantError> {
+fn val(s: &str) -> Result<f64, VariantError> {
     let mut is_positive = true;
     let mut value: f64 = 0.0;
     let mut fraction_power: i32 = 0;
@@ -72,24 +73,12 @@ fn val(s: &str) -> Result<Variant, VariantError> {
         }
     }
 
-    if state == STATE_INITIAL || state == STATE_SIGN {
-        Ok(Variant::VInteger(0))
-    } else if state == STATE_INT || state == STATE_DOT {
-        if is_positive && value <= MAX_INTEGER as f64 {
-            Ok(Variant::VInteger(value as i32))
-        } else if !is_positive && value <= (1 + MAX_INTEGER) as f64 {
-            Ok(Variant::VInteger(-value as i32))
-        } else if is_positive && value <= MAX_LONG as f64 {
-            Ok(Variant::VLong(value as i64))
-        } else if !is_positive && value <= (1 + MAX_LONG) as f64 {
-            Ok(Variant::VLong(-value as i64))
-        } else {
-            let x = Variant::VDouble(value);
-            if is_positive { Ok(x) } else { x.negate() }
-        }
+    if state == STATE_INITIAL || state == STATE_SIGN || value == 0.0 {
+        Ok(0.0)
+    } else if is_positive {
+        Ok(value)
     } else {
-        let x = Variant::VDouble(value);
-        if is_positive { Ok(x) } else { x.negate() }
+        Ok(-value)
     }
 }
 
